@@ -83,6 +83,12 @@ class VariableTransformer:
         if np.isscalar(pub):
             pub = pub * np.ones((1, D))
 
+        # Work on floating point arrays (integer-typed bounds would truncate
+        # the transformed bounds when they are written back)
+        lb, ub, plb, pub = (
+            np.array(bound, dtype=float) for bound in (lb, ub, plb, pub)
+        )
+
         # Save original vectors
         self.orig_ub = ub.copy()
         self.orig_lb = lb.copy()
